@@ -221,7 +221,9 @@ where
             return Ok(());
         }
         if let Some(head) = self.head {
-            if slice.len() > Label::MAX_LEN - (self.len() - head) {
+            // `head` is the position of the length octet, so the label
+            // currently has `len - head - 1` octets.
+            if slice.len() > Label::MAX_LEN - (self.len() - head - 1) {
                 return Err(PushError::LongLabel);
             }
         } else {
